@@ -25,6 +25,7 @@ from static_frame.core.container_util import get_col_dtype_factory
 from static_frame.core.container_util import index_constructor_empty
 from static_frame.core.container_util import index_from_optional_constructor
 from static_frame.core.container_util import index_many_concat
+from static_frame.core.container_util import index_to_hashable
 from static_frame.core.container_util import index_many_set
 from static_frame.core.container_util import key_to_ascending_key
 from static_frame.core.container_util import matmul
@@ -7452,8 +7453,8 @@ class FrameHE(Frame):
     def __hash__(self) -> int:
         if not hasattr(self, '_hash'):
             self._hash = hash((
-                    tuple(self.index), # iteration yields label tuples for hierarchical indices
-                    tuple(self.columns),
+                    index_to_hashable(self._index),
+                    index_to_hashable(self._columns),
                     # tuple(dt.str for dt in self._blocks.dtypes)
                     ))
         return self._hash
